@@ -122,6 +122,10 @@ def describe(r):
         return ({"fn": f, "kind": "wrong_result", "class": rel},
                 "%s(n=%d, first difference at %s: %s) returned %d" % (
                     f, r["n"], diff[0] if diff else "none", rel, r["ret"]))
+    if "G" in r:
+        return ({"fn": f, "kind": "wrong_result", "guard": r["G"]},
+                "%s(n=%d) with the source %s an unreadable page (dm=%d, delta=%d): destination %s, source was %s, ret-dest=%d" % (
+                    f, r["n"], "ending at" if r["G"] == "end" else "starting behind", r["dm"], r["delta"], r.get("dst"), r["src"], r["ret"]))
     n, d = r["n"], r["d"]
     outside = [x for x in r["runs"] if not (x[2] == 0 and x[3] == 0) and (x[0] < d or x[0] + x[1] > d + n)]
     kind = "write_outside" if outside else ("bad_return" if r["ret"] != d else "wrong_result")
@@ -139,7 +143,7 @@ def replay_cmd(r):
     f = r["f"]
     if f in ("memcmp", "bcmp"):
         return "onecmp %s %d %d %d %d %d" % (f, r["n"], r["am"], r["bm"], r["p"], r["pr"])
-    if r["L"] > 256:
+    if "G" in r or r["L"] > 256:
         return None
     return "one %s %d %d %d" % (f, r["n"], r["d"], r["c"] if f == "memset" else r["s"])
 
@@ -161,7 +165,7 @@ def canaries(chk, calls, bad):
 
     def pick(pred):
         for i, r in enumerate(calls):
-            if i not in bad and pred(r):
+            if i not in bad and "G" not in r and pred(r):
                 return copy.deepcopy(r)
         return None
 
@@ -365,6 +369,17 @@ def run(tier):
         bdir = core.cargo_build(template="probe/mem", release=rel)
         builds["release" if rel else "debug"] = os.path.join(bdir, "memprobe")
 
+    # the same sources built for the CPU of this machine (-C target-cpu=native): code selected by cfg!(target_feature = ..)
+    try:
+        bdir = core.cargo_build(template="probe/mem-native", release=True)
+        builds["native-release"] = os.path.join(bdir, "memprobe")
+        cfgout = subprocess.run(["rustc", "--print", "cfg", "-C", "target-cpu=native"], stdout=subprocess.PIPE, stderr=subprocess.PIPE,
+                                timeout=60).stdout.decode()
+        feats = sorted(set(re.findall(r'target_feature="([^"]+)"', cfgout)))
+        chk.extra["native_build_target_features"] = feats
+        chk.extra["native_build_has_avx"] = "avx" in feats
+    except core.ToolError as e:
+        chk.extra["native_build_error"] = str(e)[:300]
     if tier != "quick":
         # the same symbols linked the other two ways (release): static (non-PIE) and self-relocating static PIE
         for mode in ("static", "spie"):
@@ -394,25 +409,44 @@ def run(tier):
                       expected_counts(rest, {"cmp", "bcmp"}, False)))
         plans.append(("large", "large %d 400 1048576" % chk.seed, None))
 
+    # lengths 41..130 on the 640-byte arena (run-level judgement) and the guarded sources / compare operands
+    mid_ns = list(range(41, 131)) if not quick else sorted(set(list(range(41, 74)) + list(range(79, 131, 8)) +
+                                                                  [95, 96, 97, 127, 128, 129, 130]))
+    guard_ns = list(range(0, 41)) + [47, 48, 49, 63, 64, 65, 72, 95, 96, 97, 127, 128, 129, 130]
+    mid_plan = ("mid", "mid %s" % ",".join(map(str, mid_ns)), None)
+    guard_plan = ("guard", "guard %s" % ",".join(map(str, guard_ns)), None)
+    plans += [mid_plan, guard_plan]
     nontrivial = set()
     ncanary = 0
     per_fn = {}
+    native_plan = ("small", "small cpy,mov,set %s sub" % ",".join(map(str, BOUNDARY)), expected_counts(BOUNDARY, {"cpy", "mov", "set"}, False))
     boundary_plan = ("small", "small cpy,mov,set,cmp,bcmp %s sub" % ",".join(map(str, BOUNDARY)),
                      expected_counts(BOUNDARY, {"cpy", "mov", "set", "cmp", "bcmp"}, False))
     # 1. run every plan on every build (seconds), 2. judge all of it with up to 8 single-worker TLC processes
     runs = []
     for build, binary in builds.items():
-        for tag, cmd, expect in (plans if build in ("debug", "release") else [boundary_plan, plans[-1]]):
+        large_plan = next(pl for pl in plans if pl[0] == "large")
+        for tag, cmd, expect in (plans if build in ("debug", "release")
+                                 else [native_plan, large_plan, mid_plan, guard_plan] if build == "native-release"
+                                 else [boundary_plan, large_plan, guard_plan]):
             # (a complete plan takes seconds; a hang of the code under test is a TimedOut event)
             recs, status, partial = run_probe(binary, cmd, timeout=90 if quick else 600)
             meta = [r for r in recs if r.get("f") == "meta"]
             calls = [r for r in recs if r.get("f") not in ("meta", "end")]
             if meta and (meta[0]["word"] != 8 or meta[0]["small_mod64"] != 0):
                 raise core.ToolError("probe arena not aligned / unexpected word size: %s" % meta[0])
+            if tag == "guard" and any(r.get("f") == "noguard" for r in calls):
+                raise core.ToolError("the probe could not set up its guard pages (mmap/mprotect)")
             if status != "ok":
                 pc = partial_call(partial)
                 kind = "timeout" if status == "timeout" else "crash"
+                if tag == "guard" and kind == "crash":
+                    # the source / a compare operand lies against an unreadable page: a fault inside the announced call is a
+                    # load outside [src, src+n)
+                    kind = "read_outside"
                 sig = {"fn": pc.get("f", "?"), "kind": kind}
+                if "G" in pc:
+                    sig["guard"] = pc["G"]
                 chk.violate(sig, "%s probe %s during %s (after %d completed calls): %s" % (build, status, partial[:200], len(calls), cmd[:60]),
                             {"build": build, "cmd": cmd, "status": status, "announced_call": pc,
                              "replay_cmd": replay_cmd(pc) if "n" in pc and ("s" in pc or "c" in pc or "pr" in pc) else None})
@@ -431,7 +465,10 @@ def run(tier):
         chk.evaluations += n
         for r in calls:
             per_fn[r["f"]] = per_fn.get(r["f"], 0) + 1
-            if r["f"] in ("memcmp", "bcmp"):
+            if "G" in r:
+                if r["n"] >= THRESHOLD:
+                    nontrivial.add((r["f"], "guard", r["G"], r["n"], r.get("dm", r.get("bm")), r.get("delta", r.get("p"))))
+            elif r["f"] in ("memcmp", "bcmp"):
                 if r["p"] < r["n"]:
                     nontrivial.add((r["f"], r["n"], r["am"], r["bm"], r["p"], r["pr"]))
             elif r["n"] >= THRESHOLD:
@@ -459,6 +496,8 @@ def run(tier):
                     "64 KiB" if quick else "1 MiB"))
     chk.assumptions = ["x86_64 only; WORD_SIZE 8, WORD_COPY_THRESHOLD 16 (lengths 0..40 = 2*threshold + word cover every head/body/tail split)",
                        "writes further than the arena (>= 32 bytes from the destination on either side) are not observed",
+                       "loads outside the source / compare operands are observed where they cross into an unreadable page placed exactly at the end (or start) of the range; an over-read that stays inside the same page as the range is not seen",
+                       "code under cfg!(target_feature) is exercised for the features of the machine the check runs on only (extra.native_build_target_features)",
                        "memcpy is only called with non-overlapping ranges (overlap is undefined in C)",
                        "the arena is a 64-byte aligned static: 'misalignment' is the address modulo 16"]
     chk.extra["calls_per_function"] = per_fn
